@@ -179,7 +179,7 @@ pub fn any_rate() -> f64 {
 }
 
 /// mutator selection per instance: 0 none, 1 bitflip, 2 boundary, 3 offbyone, 4 stringlen, 5 character,
-/// 6 memoindex(safe), 7 memoindex(unsafe), 8 typeconfusion(safe), 9 typeconfusion(unsafe)
+/// 6 memoindex(safe), 7 memoindex(unsafe), 8 typeconfusion(safe), 9 typeconfusion(unsafe), 10 safe set {3, 6, 8}
 pub fn install(g: &mut Generator, which: u8) {
     match which {
         1 => g.mutators.push(Box::new(BitFlipMutator)),
@@ -191,6 +191,12 @@ pub fn install(g: &mut Generator, which: u8) {
         7 => g.mutators.push(Box::new(MemoIndexMutator::new(true))),
         8 => g.mutators.push(Box::new(TypeConfusionMutator::new(false))),
         9 => g.mutators.push(Box::new(TypeConfusionMutator::new(true))),
+        10 => {
+            // the memo-relevant part of the safe set the CLI builds for `--mutators all` (every member created safe)
+            g.mutators.push(Box::new(OffByOneMutator));
+            g.mutators.push(Box::new(MemoIndexMutator::new(false)));
+            g.mutators.push(Box::new(TypeConfusionMutator::new(false)));
+        }
         _ => {}
     }
 }
